@@ -177,6 +177,7 @@ def run_instances(res, tier, seed, model_ok, search):
     seps = sorted(EXCHANGE_SET)
     lines, impls, payloads = [], [], []
     for case in range(n):
+        kr = random.Random("cleared|%r|%r" % (seed, case))
         k = rng.randint(1, 4)
         names = []
         while len(names) < k:
@@ -262,6 +263,20 @@ def run_instances(res, tier, seed, model_ok, search):
                             res.violate("update-misattributed", "reference %r of an unregistered strategy was given to %s" % (
                                 ref, [(y.id, y.trade.strategy.name[:20]) for y in new + hit]), {"names": names, "ops": ops, "case": case})
                             ok_case = False
+                # ---- the same reference coming back on the cleared-orders path (listClearedOrders after settlement, live only):
+                # it recovers exactly the order that produced it, whatever separator that order was created with
+                if not same_name and kr.random() < 0.5:
+                    from flumine.clients import ExchangeType
+                    clr = mock.Mock(customer_order_ref=ref)
+                    fw._process_cleared_orders(mock.Mock(exchange=ExchangeType.BETFAIR, event=mock.Mock(market_id=mkt, orders=[clr])))
+                    got = [y for m in fw.markets for y in m.blotter if y.cleared_order is clr]
+                    want = [known[x]] if x in known else []
+                    res.distribution["inst:cleared-order " + ("known" if want else "unknown")] += 1
+                    if got != want:
+                        res.violate("cleared-order-not-recovered", "cleared order with reference %r (separator %r) was attached to %s, expected %s" % (
+                            ref, o.sep, [y.id for y in got] or "nothing", [y.id for y in want] or "nothing"),
+                            {"names": names, "ops": ops, "case": case})
+                        ok_case = False
                 # ---- canonical answer for the model comparison
                 if hit and not new:
                     y = hit[0]
